@@ -90,7 +90,7 @@ impl Prop for C17 {
         "An animation-set file (meta None/Some, clip table of exactly 257 optional names, 0..=6 (40 in thorough) sets each with an optional label (never the reserved AnimClipNameTable) and a present/absent pattern over 256 slots: \
          empty, single slot, only bit 31 of a group, dense, alternating groups, random; names Shift-JIS-lossless incl. the empty string) is serialized, parsed with BinArchive::from_bytes + ASetFile::from_archive and compared field by field; \
          re-serializing the re-read value must give identical bytes; the data size reported by the independent reader must be 12 + 4*257 + sum over sets of 4*(1 + groups present + names present). Large files with 255/256/257 fully populated sets (just below and above 65 536 strings). Bounded-exhaustive: every single slot 0..=255 alone, \
-         bit 31 alone in each group, and empty / unlabelled sets in every position of a 3-set file. Non-trivial: >= 1 set with >= 1 present slot and >= 1 entirely absent group, or an empty set. Distinct = distinct case value."
+         bit 31 alone in each group, and empty / unlabelled sets in every position of a 3-set file. 1 case in 100 has 260..=700 sets; names come from the shared pool (which holds proper endings / beginnings of other pool strings) and 1 in ~300 is up to 36 KiB long. Non-trivial: >= 1 set with >= 1 present slot and >= 1 entirely absent group, or an empty set. Distinct = distinct case value."
             .into()
     }
     fn assumptions() -> Vec<String> {
